@@ -371,11 +371,34 @@ func c18prop(ev *evid.Rec) func(rt *rapid.T) {
 						rt.Skip()
 					}
 					rec("delete-item %v", p)
+					// what lived below the item (its paths were listed a moment ago by the invariant) is gone with it
+					var below [][]string
+					for _, q := range s.paths(0) {
+						if len(q) >= len(p) && strings.Join(q[:len(p)], "\x00") == strings.Join(p, "\x00") {
+							below = append(below, q)
+						}
+					}
 					if r := s.c.Request(hlref.TranDelNewsItem, newsPath(p)); !okReply(r) {
 						s.fail("delete item refused")
 					}
 					delete(s.node(p[:len(p)-1]).kids, p[len(p)-1])
 					s.deletes++
+					for _, q := range below {
+						if r := s.c.Request(hlref.TranGetNewsArtNameList, newsPath(q)); okReply(r) {
+							d, _ := r.Get(hlref.FNewsArtListData)
+							if _, _, _, es, err := hlref.DecodeNewsArtList(d); err == nil && len(es) != 0 {
+								s.fail("after delete-item %v the article list of %v still shows %d articles", p, q, len(es))
+							}
+						}
+						if s.c.EOF() {
+							// (a request naming something that is gone may cost the requester its connection; the user comes back)
+							s.reconnects++
+							s.c = loginAs(rt, w, fmt.Sprintf("10.0.0.1:%d", 100+s.reconnects), "admin", "adminpw", "admin")
+							if s.poster != "admin" {
+								s.c.Request(hlref.TranSetClientUserInfo, sfld(hlref.FUserName, s.poster), fld(hlref.FUserIconID, hlref.BE16(1)))
+							}
+						}
+					}
 				},
 				"stalePath": func(rt *rapid.T) {
 					// a request whose path has a component that does not exist (a stale path through something another
